@@ -1,0 +1,23 @@
+//go:build verif
+
+package gortsplib
+
+import "time"
+
+// This file is compiled only with the "verif" build tag. The periods of the
+// RTCP sender and receiver reports are private fields that default to 10
+// seconds in Start(); the verification harness sets them before Start() so
+// that the periodic report paths run within cases that last milliseconds.
+// It adds no behaviour.
+
+// VerifSetServerReportPeriods sets the RTCP report periods of a server that has not been started yet.
+func VerifSetServerReportPeriods(s *Server, sender, receiver time.Duration) {
+	s.senderReportPeriod = sender
+	s.receiverReportPeriod = receiver
+}
+
+// VerifSetClientReportPeriods sets the RTCP report periods of a client that has not been started yet.
+func VerifSetClientReportPeriods(c *Client, sender, receiver time.Duration) {
+	c.senderReportPeriod = sender
+	c.receiverReportPeriod = receiver
+}
